@@ -19,7 +19,7 @@ class Abort(BaseException):
     """A non-Exception BaseException (like KeyboardInterrupt) raised by an owner function."""
 
 METHODS = ['exists', 'is_file', 'is_dir', 'get_size', 'read_text', 'read_binary', 'declare_read', 'list_dir', 'walk',
-           'build_file', 'subbuild']
+           'build_file', 'build_file_with_comparison', 'subbuild']
 # queries of the owner's own output and its directory (build_file builders only): what they answer changes
 # while a failed call is being rolled back
 OWN_METHODS = ['is_dir:own', 'list_dir:own', 'exists:own/out', 'is_file:own/out']
@@ -69,13 +69,15 @@ class Run:
             return 'opened'
         if M in ('list_dir', 'walk'):
             return getattr(b, M)(sb.p('obsd'))
-        if M == 'build_file':
+        if M in ('build_file', 'build_file_with_comparison'):
             def late(b2, p):
                 log.append('late_invoked')
                 with open(p, 'w') as f:
                     f.write('late')
                 return 1
-            return b.build_file(sb.p('late'), 'late', late)
+            if M == 'build_file':
+                return b.build_file(sb.p('late'), 'late', late)
+            return b.build_file_with_comparison(sb.p('late'), self.ctx.fb.FileComparison.HASH, 'late', late)
         if M == 'subbuild':
             def lates(b2):
                 log.append('late_invoked')
@@ -87,7 +89,7 @@ class Run:
         sb = self.sb
         if ':' in M:
             return False
-        if M == 'build_file':
+        if M in ('build_file', 'build_file_with_comparison'):
             if os.path.exists(sb.p('late')):
                 os.remove(sb.p('late'))
                 return True
